@@ -18,8 +18,9 @@ through `visit` (`destroy`, copy/move construction, `assign`, the relational ope
 implemented through `visitWithIndex` here, so "the model never returns `.error`" says that the
 dispatch always lands on the active alternatives.
 
-Element types are abstract: `mvd x` is the state a moved-from element is left in (identity for
-`int`/`float`, the marker value for the instrumented types of the harness).
+Element types are abstract: an `Elem` gives what copy construction, move construction, copy assignment and
+move assignment of an element do to values (new object and, for the move forms, the moved-from source), so
+*which* special member an operation of the variant uses is visible in the stored value.
 -/
 import Tetl.Common
 namespace Tetl.C07
@@ -61,12 +62,30 @@ structure V (α : Type) where
   val : α
   deriving Repr, DecidableEq, Inhabited
 
-/-- static configuration of a `variant<Ts...>`: number of alternatives; whether all alternatives
-    are trivially copy/move constructible and assignable (then the special members are defaulted) -/
+/-- static configuration of a `variant<Ts...>`: number of alternatives, and which of the variant's four
+    special members are the defaulted (bitwise) ones.  `trivCC` = all alternatives trivially copy constructible,
+    `trivMC` = all trivially move constructible, `trivCA` = all `detail::variant_trivially_copy_assignable`
+    (trivially copy constructible *and* trivially copy assignable), `trivMA` = all
+    `detail::variant_trivially_move_assignable` (trivially move constructible and trivially move assignable):
+    the `requires` clauses of the four user-provided members in variant.hpp. -/
 structure Cfg where
   n : Nat
-  triv : Bool
+  trivCC : Bool
+  trivMC : Bool
+  trivCA : Bool
+  trivMA : Bool
   deriving Repr
+
+/-- what the special members of the element types do, as functions on element values:
+    `cc s` = the object `T(s)` (copy construction), `mc s` = (`T(move(s))`, `s` afterwards),
+    `ca d s` = `d` after `d = s`, `ma d s` = (`d`, `s`) after `d = move(s)` (two distinct objects).
+    No laws are assumed: a type whose copy constructor, move constructor, copy assignment and move
+    assignment each leave a different mark in the value is an instance. -/
+structure Elem (α : Type) where
+  cc : α → α
+  mc : α → α × α
+  ca : α → α → α
+  ma : α → α → α × α
 
 variable {α : Type}
 
@@ -102,30 +121,37 @@ def emplace (c : Cfg) (v : V α) (i : Nat) (x : α) : Except Err (V α) :=
   else .error (.pre "variant::emplace: I < sizeof...(Ts)")
 
 /-- copy / move construction from `src`; returns the new object and `src` afterwards.
-    Trivial alternatives: the defaulted member (index and bytes).  Otherwise
-    `variant(other, copy_move_tag)`: `visit_with_index([&](auto p){ replace(p.index, move(p).value()); }, other)`. -/
-def construct (c : Cfg) (mvd : α → α) (mv : Bool) (src : V α) : Except Err (V α × V α) :=
-  if c.triv then .ok (src, src)
-  else (visit1 c src).map fun (i, x) => (⟨i, x⟩, if mv then { src with val := mvd x } else src)
+    All alternatives trivially copy (move) constructible: the defaulted member (index and bytes).  Otherwise
+    `variant(other, copy_move_tag)`: `visit_with_index([&](auto p){ replace(p.index, move(p).value()); }, other)`:
+    the active alternative is copy constructed from a `const&` source, move constructed from an rvalue one. -/
+def construct (c : Cfg) (el : Elem α) (mv : Bool) (src : V α) : Except Err (V α × V α) :=
+  if (if mv then c.trivMC else c.trivCC) then .ok (src, src)
+  else (visit1 c src).map fun (i, x) =>
+    if mv then (⟨i, (el.mc x).1⟩, { src with val := (el.mc x).2 }) else (⟨i, el.cc x⟩, src)
 
 /-- `variant::assign(other)` for two distinct objects (copy or move assignment); returns `*this` and
-    `other` afterwards.  Trivial alternatives: defaulted.  Otherwise
+    `other` afterwards.  All alternatives `variant_trivially_copy(move)_assignable`: defaulted.  Otherwise
     `visit_with_index([&](auto lhs, auto rhs){ if constexpr (lhs.index == rhs.index) lhs.value() = move(rhs.value());
-     else { destroy(); replace(rhs.index, move(rhs.value())); } }, *this, other)`. -/
-def assign (c : Cfg) (mvd : α → α) (mv : Bool) (dst src : V α) : Except Err (V α × V α) :=
-  if c.triv then .ok (src, src)
+     else { destroy(); replace(rhs.index, move(rhs.value())); } }, *this, other)`; `move(rhs.value())` is a
+    `T const&&` for a `const&` source (copy assignment / copy construction of the element) and a `T&&` for an
+    rvalue source (move assignment / move construction).  No copy-then-move: a different alternative is always
+    constructed directly from the source. -/
+def assign (c : Cfg) (el : Elem α) (mv : Bool) (dst src : V α) : Except Err (V α × V α) :=
+  if (if mv then c.trivMA else c.trivCA) then .ok (src, src)
   else
     match visit2 c dst src with
     | .error e => .error e
-    | .ok ((li, _), (ri, r)) =>
-      let src' := if mv then { src with val := mvd r } else src
-      if li = ri then .ok ({ dst with val := r }, src')
-      else (destroy c dst).map fun _ => (⟨ri, r⟩, src')
+    | .ok ((li, l), (ri, r)) =>
+      if li = ri then
+        .ok (if mv then ({ dst with val := (el.ma l r).1 }, { src with val := (el.ma l r).2 })
+             else ({ dst with val := el.ca l r }, src))
+      else (destroy c dst).map fun _ =>
+        if mv then (⟨ri, (el.mc r).1⟩, { src with val := (el.mc r).2 }) else (⟨ri, el.cc r⟩, src)
 
 /-- `x = x` / `x = move(x)`: both visitor arguments are the same object; with equal indices the
     element is assigned to itself (a no-op for the element types considered). -/
-def assignSelf (c : Cfg) (v : V α) : Except Err (V α) :=
-  if c.triv then .ok v
+def assignSelf (c : Cfg) (mv : Bool) (v : V α) : Except Err (V α) :=
+  if (if mv then c.trivMA else c.trivCA) then .ok v
   else
     match visit2 c v v with
     | .error e => .error e
@@ -147,22 +173,22 @@ def put (st : List (V α)) (k : Nat) (v : V α) : Except Err (List (V α)) :=
   if k < st.length then .ok (st.set k v) else .error .oob
 
 /-- `etl::swap(a, b)` on two distinct objects: `T temp(move(a)); a = move(b); b = move(temp);` then `~temp` -/
-def swap2 (c : Cfg) (mvd : α → α) (a b : V α) : Except Err (V α × V α) := do
-  let (temp, a1) ← construct c mvd true a
-  let (a2, b1) ← assign c mvd true a1 b
-  let (b2, temp') ← assign c mvd true b1 temp
+def swap2 (c : Cfg) (el : Elem α) (a b : V α) : Except Err (V α × V α) := do
+  let (temp, a1) ← construct c el true a
+  let (a2, b1) ← assign c el true a1 b
+  let (b2, temp') ← assign c el true b1 temp
   destroy c temp'
   .ok (a2, b2)
 
 /-- `etl::swap(a, a)` -/
-def swapSelf (c : Cfg) (mvd : α → α) (a : V α) : Except Err (V α) := do
-  let (temp, a1) ← construct c mvd true a
-  let a2 ← assignSelf c a1
-  let (a3, temp') ← assign c mvd true a2 temp
+def swapSelf (c : Cfg) (el : Elem α) (a : V α) : Except Err (V α) := do
+  let (temp, a1) ← construct c el true a
+  let a2 ← assignSelf c true a1
+  let (a3, temp') ← assign c el true a2 temp
   destroy c temp'
   .ok a3
 
-def step (c : Cfg) (mvd : α → α) (st : List (V α)) : Op α → Except Err (List (V α))
+def step (c : Cfg) (el : Elem α) (st : List (V α)) : Op α → Except Err (List (V α))
   | .emplace k i x => do
     let v ← rd st k
     let v' ← emplace c v i x
@@ -176,17 +202,17 @@ def step (c : Cfg) (mvd : α → α) (st : List (V α)) : Op α → Except Err (
   | .assign k j mv =>
     if k = j then do
       let v ← rd st k
-      let v' ← assignSelf c v
+      let v' ← assignSelf c mv v
       put st k v'
     else do
       let d ← rd st k
       let s ← rd st j
-      let (d', s') ← assign c mvd mv d s
+      let (d', s') ← assign c el mv d s
       let st1 ← put st k d'
       put st1 j s'
   | .ctor k j mv => do
     let s ← rd st j
-    let (nw, s') ← construct c mvd mv s
+    let (nw, s') ← construct c el mv s
     if k = j then
       destroy c s'
       put st k nw
@@ -198,21 +224,21 @@ def step (c : Cfg) (mvd : α → α) (st : List (V α)) : Op α → Except Err (
   | .swap k j =>
     if k = j then do
       let a ← rd st k
-      let a' ← swapSelf c mvd a
+      let a' ← swapSelf c el a
       put st k a'
     else do
       let a ← rd st k
       let b ← rd st j
-      let (a', b') ← swap2 c mvd a b
+      let (a', b') ← swap2 c el a b
       let st1 ← put st k a'
       put st1 j b'
 
-def run (c : Cfg) (mvd : α → α) : List (V α) → List (Op α) → Except Err (List (V α))
+def run (c : Cfg) (el : Elem α) : List (V α) → List (Op α) → Except Err (List (V α))
   | st, [] => .ok st
   | st, op :: ops =>
-    match step c mvd st op with
+    match step c el st op with
     | .error e => .error e
-    | .ok st' => run c mvd st' ops
+    | .ok st' => run c el st' ops
 
 /-- `get_if<I>(&v)`: `pv->index() != I → nullptr`, else `&unchecked_get<I>(*pv)` -/
 def getIf (v : V α) (i : Nat) : Except Err (Option α) :=
@@ -327,6 +353,33 @@ def valueOr (v : V α) (d : α) : Except Err α := if hasValue v then deref v el
 /-- `and_then(f)`: `if (*this) return invoke(f, **this); return U{};` — returns what `f` returned, or `none` -/
 def andThen {ρ : Type} (v : V α) (f : α → ρ) : Except Err (Option ρ) :=
   if hasValue v then (deref v).map fun x => some (f x) else .ok none
+
+/-- `or_else(f)`: `*this ? *this : f()` (`move(*this)` on an rvalue): the contained value that is copied / moved into
+    the result, or `none` when `f` is called instead -/
+def orElse (v : V α) : Except Err (Option α) := if hasValue v then (deref v).map some else .ok none
+
+/-! ### expected = variant<T, E>, index 0 = value -/
+
+/-- `has_value()`: `_u.index() == 0` -/
+def expHas (v : V α) : Bool := v.idx == 0
+
+/-- `operator*`: `TETL_PRECONDITION(has_value()); _u[index_v<0>]` -/
+def expDeref (v : V α) : Except Err α := if expHas v then getAt v 0 else .error (.pre "expected::operator*: has_value()")
+
+/-- `error()`: `TETL_PRECONDITION(not has_value()); _u[index_v<1>]` -/
+def expError (v : V α) : Except Err α := if expHas v then .error (.pre "expected::error(): not has_value()") else getAt v 1
+
+/-- `value_or(d)`: `static_cast<bool>(*this) ? **this : static_cast<T>(forward<U>(d))` -/
+def expValueOr (v : V α) (d : α) : Except Err α := if expHas v then expDeref v else .ok d
+
+/-- `and_then(f)`: `if (has_value()) return invoke(f, **this); return U(unexpect, error());` — `onErr` is what the
+    propagated error becomes (a copy / move of it inside the new expected) -/
+def expAndThen {ρ : Type} (v : V α) (f : α → ρ) (onErr : α → ρ) : Except Err ρ :=
+  if expHas v then (expDeref v).map f else (expError v).map onErr
+
+/-- `or_else(f)`: `if (has_value()) return G(in_place, **this); return invoke(f, error());` -/
+def expOrElse {ρ : Type} (v : V α) (onVal : α → ρ) (f : α → ρ) : Except Err ρ :=
+  if expHas v then (expDeref v).map onVal else (expError v).map f
 
 /-! ### converting constructor / assignment: which alternative -/
 
